@@ -217,6 +217,8 @@ def run(ctx):
                "enlargement: the final population is mutate(resample(population, 1.0, n_final_samples), 1.0), so its densities are re-evaluated",
                "the final-sample enlargement does not return mutate(resample(population, beta=1, size=n_final_samples), beta=1)")
 
+    from .smcloop import forwarding_rule
+    forwarding_rule(ctx, "C10.final", ("n_final_samples",), "the returned population of that sampler does not have the requested final size")
     # the enlargement is taken exactly when a final size was requested (and differs from the current one)
     sfg = fold_sample(repo, resumed=False, final=None)
     rsg = [e for e in sfg.events("method:resample", in_loop=False)]
